@@ -319,7 +319,12 @@ def workspace_shard(shard_i, nshards, payload):
             for k in range(rng.randint(3, 8)):
                 name = "%s%d.%s" % (rng.choice(["unit", "Pump", "a b", "lib"]), k, rng.choice(["st", "st", "ST", "iec"]))
                 docs[name] = make_doc(rng, bad01)[0]
-                open(os.path.join(ws, name), "w").write(docs[name])
+                # stored the way editors on other systems store them: with a byte order mark, as UTF-16
+                enc = rng.choice(["utf-8", "utf-8", "utf-8-sig", "utf-16-le-bom", "utf-16-be-bom"])
+                data = docs[name].encode("utf-8") if enc == "utf-8" else docs[name].encode("utf-8-sig") if enc == "utf-8-sig" else \
+                    (b"\xff\xfe" + docs[name].encode("utf-16-le")) if enc == "utf-16-le-bom" else (b"\xfe\xff" + docs[name].encode("utf-16-be"))
+                open(os.path.join(ws, name), "wb").write(data)
+                res.count("workspace-file:" + enc)
             unreadable = rng.sample(["dangling", "dangling2", "directory", "none"], rng.randint(1, 3))
             for j, u in enumerate(unreadable):
                 if u.startswith("dangling"):
